@@ -42,6 +42,9 @@ def gstore(ctx):
             n += 1
             atoms = g.atoms_at(node)
             key = "R-GSTORE/%s/%s" % (f.path, fld)
+            if _excludes_stream(atoms) and fld in ("creation_time", "modified_time") and any(re.search(r"obj_type is ObjType::Storage$", a) for a in atoms) and not f.path.startswith("internal::"):
+                res.fail(Finding("R-GSTORE", key + "/root-excluded", "DirEntry.%s is stored only where the entry is a Storage: the root storage, whose times can be set as well, is silently left unchanged (the guard the format needs is `not a stream`)" % fld, f, st["span"]))
+                continue
             if _excludes_stream(atoms):
                 res.ok({"function": f.path, "field": fld, "guard": [a[-90:] for a in atoms if "obj_type" in a][:2]}, nontrivial=True)
                 continue
@@ -441,7 +444,7 @@ def ctorvalues(pid):
     def run(ctx):
         res = RuleResult("R-CTORVAL(%s)" % pid, "DirEntry::unallocated() is the blank pattern of MS-CFB 2.6.3 field for field; DirEntry::new() sets both times from its timestamp argument and everything else to the empty values")
         want = {
-            "unallocated": {"name": r"^String::new\(\)$", "obj_type": r"^ObjType::Unallocated\(\)$", "left_sibling": r"^const:(\w+::)*NO_STREAM$", "right_sibling": r"^const:(\w+::)*NO_STREAM$", "child": r"^const:(\w+::)*NO_STREAM$",
+            "unallocated": {"name": r"^String::new\(\)$", "obj_type": r"^ObjType::Unallocated\(\)$", "color": r"^Color::Red\(\)$", "left_sibling": r"^const:(\w+::)*NO_STREAM$", "right_sibling": r"^const:(\w+::)*NO_STREAM$", "child": r"^const:(\w+::)*NO_STREAM$",
                             "clsid": r"nil\(\)$", "state_bits": r"^const:0$", "creation_time": r"^Timestamp::zero\(\)$", "modified_time": r"^Timestamp::zero\(\)$", "start_sector": r"^const:0$", "stream_len": r"^const:0$"},
             "new": {"obj_type": r"^param:obj_type$", "left_sibling": r"^const:(\w+::)*NO_STREAM$", "right_sibling": r"^const:(\w+::)*NO_STREAM$", "child": r"^const:(\w+::)*NO_STREAM$", "clsid": r"nil\(\)$", "state_bits": r"^const:0$",
                     "creation_time": r"^param:timestamp$", "modified_time": r"^param:timestamp$", "stream_len": r"^const:0$"},
